@@ -1,4 +1,4 @@
-import IgrisModel.C19.Model
+import IgrisModel.C19.Model2
 open Igris.Proto Igris.C19
 
 def fmtToks (v : List Str) : String :=
@@ -43,6 +43,104 @@ def fmtCreader (mem : Str) : String :=
   | some (l, ended) =>
     String.join (l.map fun (t, len, c) => toString t ++ ":" ++ toString len ++ ":" ++ toString c ++ " ")
       ++ (if ended then "end" else "LOOP")
+
+
+def fmtOB : Option Bool → String
+  | none => "fault"
+  | some true => "1"
+  | some false => "0"
+
+def fmtON : Option Nat → String
+  | none => "fault"
+  | some n => toString n
+
+/-- `name[:help]`, both hex or `-` -/
+def parseEntry (w : String) : Option HelpEntry :=
+  match w.splitOn ":" with
+  | [n] => do let n ← parseBytes? n; pure (n, none)
+  | [n, h] => do let n ← parseBytes? n; let h ← parseBytes? h; pure (n, some h)
+  | _ => none
+
+/-- `_` = empty table, else entries separated by commas -/
+def parseHelpTable (w : String) : Option (List HelpEntry) :=
+  if w = "_" then some [] else (w.splitOn ",").mapM parseEntry
+
+/-- the answer buffer after the call: bytes written, the rest still 0xa5 -/
+def fmtAns (m : Int) (r : Nat × Str) : String :=
+  if (r.2.length : Int) > max m 0 then "fault"
+  else toString r.1 ++ " " ++ bytesHex (r.2 ++ List.replicate (m.toNat - r.2.length) 0xa5#8)
+
+def stepLine2 (line : String) : Option String :=
+  match words line with
+  | ["pabs", t] => do
+      let t ← parseBytes? t
+      pure (fmtOB (pathIsAbs (t ++ [NUL])))
+  | ["psimple", t] => do
+      let t ← parseBytes? t
+      pure (fmtOB (pathIsSimple (t ++ [NUL])))
+  | ["pdd", t] => do
+      let t ← parseBytes? t
+      pure (fmtOB (pathIsDoubleDot (t ++ [NUL])))
+  | ["plast", t] => do
+      let t ← parseBytes? t
+      pure (fmtON (pathLastNode (t ++ [NUL])))
+  | ["plastu", t] => do
+      let t ← parseBytes? t
+      pure (fmtON (pathLastNode (t ++ [NUL])))
+  | ["pnext0", t] => do
+      let t ← parseBytes? t
+      pure (match pathNextNoLen (t ++ [NUL]) with
+            | none => "fault"
+            | some none => "null"
+            | some (some o) => toString o)
+  | ["lenfirst", t] => do
+      let t ← parseBytes? t
+      pure (fmtON (lengthOfFirst (t ++ [NUL])))
+  | ["cskip", b, sy] => do
+      let b ← parseBytes? b
+      let sy ← parseBytes? sy
+      pure (match creaderSkip b (sy ++ [NUL]) with
+            | none => "fault"
+            | some (n, c) => toString n ++ " " ++ toString (b.length - c.length))
+  | ["cskipws", b] => do
+      let b ← parseBytes? b
+      pure (match creaderSkipws b with
+            | none => "fault"
+            | some (n, c) => toString n ++ " " ++ toString (b.length - c.length))
+  | ["beq", a, b] => do
+      let a ← parseBytes? a
+      let b ← parseBytes? b
+      pure (fmtOB (bufEq a b) ++ " " ++ fmtOB (bufNe a b))
+  | ["beqz", a, z] => do
+      let a ← parseBytes? a
+      let z ← parseBytes? z
+      pure (fmtOB (bufEqZ a (z ++ [NUL])) ++ " " ++ fmtOB (bufNeZ a (z ++ [NUL])))
+  | ["bufctor", k, a] => do
+      let a ← parseBytes? a
+      pure (fmtON (bufCtorSize (k == "c") a))
+  | ["dstr", b] => do
+      let b ← parseBytes? b
+      pure (bytesHex (dstring b))
+  | ["mhelp", t] => do
+      let t ← parseHelpTable t
+      pure (fmtToks (mshellHelp t))
+  | "mhelpt" :: ts => do
+      let ts ← ts.mapM parseHelpTable
+      pure (fmtToks (mshellTablesHelp ts))
+  | ["rhelp", m, t] => do
+      let m ← m.toInt?
+      let t ← parseHelpTable t
+      pure (fmtAns m (rshellHelp t m))
+  | "rhelpt" :: m :: ts => do
+      let m ← m.toInt?
+      let ts ← ts.mapM parseHelpTable
+      pure (fmtAns m (rshellTablesHelp ts m))
+  | "rshv" :: d :: n :: args => do
+      let d ← d.toNat?
+      let n ← parseNames n
+      let args ← args.mapM parseBytes?
+      pure (fmtDispatch (rshellExecuteV args n d))
+  | _ => none
 
 def stepLine (_ : Unit) (line : String) : Unit × String :=
   let r : Option String :=
@@ -151,7 +249,7 @@ def stepLine (_ : Unit) (line : String) : Unit × String :=
     | ["creader", b] => do
         let b ← parseBytes? b
         pure (fmtCreader b)
-    | _ => none
+    | _ => stepLine2 line
   ((), r.getD "bad-op")
 
 def main : IO Unit := run () stepLine
